@@ -241,12 +241,12 @@ def gen_cauchy_case(rng, kind):
     if kind == "plain":
         nfac = rng.choice([2, 2, 3, 3, 4])
         dims = [rng.randint(1, 3) for _ in range(nfac + 1)]
+        if rng.random() < 0.25:
+            operator = "J"  # custom operator a J b; `one` is then not generated (it is the unit of the operator, not of J)
         tables = []
         for f in range(nfac):
-            ident = dims[f] == dims[f + 1] and rng.random() < 0.3
+            ident = operator is None and dims[f] == dims[f + 1] and rng.random() < 0.3
             tables.append(table(dims[f], dims[f + 1], identity0=ident))
-        if rng.random() < 0.25:
-            operator = "J"
     elif kind == "herm_adjoint":  # (A, A^dagger), hermitian=True
         nfac, herm = 2, True
         dims = [rng.randint(1, 3), rng.randint(1, 3)]
@@ -413,13 +413,126 @@ def classify_cauchy(failure):
         return None
 
 
+# ---- the second known class: `one` that is not the only non-zero term ---------------
+
+
+def kinds_of_case(case):
+    """per factor: dict idx -> 'one' | 'val' (zero omitted)"""
+    out = []
+    for tab in case["tables"]:
+        d = {}
+        for k, v in tab:
+            if v == "zero":
+                continue
+            d[tuple(k)] = "one" if v == "one" else "val"
+        out.append(d)
+    return out
+
+
+def sentinel_outcome(case, idx):
+    """Outcome of the sentinel arithmetic of product_by_order / the Hermitian wrapper for element idx,
+    computed on KINDS only (zero / one / val): returns 'zero' | 'one' | 'val' | ('exc', classname).
+    Mirrors series.py: enumeration order, `result + term`, `Dagger(term)`."""
+    kinds = kinds_of_case(case)
+    dims = case["dims"]
+    nfac = len(kinds)
+    memo = {}
+
+    def element(level, index):
+        # level 0 = factor 0; level l >= 1 = product of the first l+1 factors
+        if level == 0:
+            return kinds[0].get(index, "zero")
+        key = (level, index)
+        if key not in memo:
+            memo[key] = product(level, index)
+        return memo[key]
+
+    def product(level, index):
+        i, j, n = index[0], index[1], tuple(index[2:])
+        final = level == nfac - 1
+        herm = case["herm"] and final
+        if herm and i > j:
+            r = element(level, (j, i) + n)
+            if isinstance(r, tuple):
+                return r
+            return ("exc", "SympifyError") if r == "one" else r
+        half = herm and nfac == 2 and i == j
+        result = "zero"
+        for k in range(dims[level]):
+            for a in leq_orders(n):
+                b = tuple(x - y for x, y in zip(n, a))
+                if half and a > b:
+                    continue
+                x = element(level - 1, (i, k) + a)
+                if isinstance(x, tuple):
+                    return x
+                y = kinds[level].get((k, j) + b, "zero")
+                if x == "zero" or y == "zero":
+                    continue
+                term = "one" if (x == "one" and y == "one") else "val"
+
+                def add(r, t):
+                    if r == "zero":
+                        return t
+                    if r == "val" and t == "val":
+                        return "val"
+                    return ("exc", "TypeError")
+
+                result = add(result, term)
+                if isinstance(result, tuple):
+                    return result
+                if half and a != b:
+                    if term == "one":
+                        return ("exc", "SympifyError")
+                    result = add(result, "val")
+                    if isinstance(result, tuple):
+                        return result
+        return result
+
+    return element(nfac - 1, tuple(idx))
+
+
+def classify_one_plus_term(failure):
+    """'C18-one-plus-term' iff the implementation raised TypeError / SympifyError and the sentinel
+    arithmetic on the kinds of the factor elements (one + x, x + one, Dagger(one)) explains exactly
+    this exception for the requested element."""
+    try:
+        case = failure["input"]
+        obs = failure["observed"]
+        if obs not in ("TypeError", "SympifyError") or case.get("operator") or case.get("forbidden"):
+            return None
+        # note: the order in which factor elements are fetched does not matter for kinds
+        out = sentinel_outcome(case, failure["index"])
+        if out == ("exc", obs):
+            return "C18-one-plus-term"
+        return None
+    except Exception:  # noqa: BLE001
+        return None
+
+
+def witness_one_cases():
+    x = [[1, 0], [2, 0], [3, 0], [4, 0]]
+    y = [[0, 0], [1, 0], [1, 0], [0, 0]]
+    w1 = dict(
+        kind="witness_one_typeerror", nparam=1, dims=[1, 2, 1], N=[0], herm=False, operator=None,
+        tables=[[[[0, 0, 0], "one"], [[0, 1, 0], x]], [[[0, 0, 0], "one"], [[1, 0, 0], y]]],
+        known=[[], []], requests=[[0, 0, 0]],
+    )
+    w2 = dict(
+        kind="witness_one_sympify", nparam=1, dims=[1, 1, 1], N=[1], herm=True, operator=None,
+        tables=[[[[0, 0, 0], "one"], [[0, 0, 1], "one"]], [[[0, 0, 0], "one"], [[0, 0, 1], "one"]]],
+        known=[[], []], requests=[[0, 0, 1]],
+    )
+    return [w1, w2]
+
+
 def oracle_cauchy(ctx, ncases=None):
     n = ncases or ctx.n(150, 3000)
     rng = ctx.rng
     failures, samples = [], []
     dist = {}
     nontrivial = set()
-    cases = [witness_case()]
+    cases = [witness_case()] + witness_one_cases()
     kinds = ["plain"] * 5 + ["herm_adjoint"] * 2 + ["herm_sandwich"] * 2 + ["herm_commuting", "lazy"]
     for _ in range(n):
         k = rng.choice(kinds)
